@@ -55,6 +55,11 @@ func (d *DBFT[H]) checkPreCommit() {
 		return
 	}
 
+	// PreCommits received while some transactions were missing are stored
+	// unverified and transactions can be completed in different ways (including
+	// memory pool lookups on recovery), so ensure only valid ones are counted.
+	d.verifyPreCommitPayloadsAgainstPreBlock()
+
 	count := 0
 	for _, msg := range d.PreCommitPayloads {
 		if msg != nil && msg.ViewNumber() == d.ViewNumber {
